@@ -7,7 +7,8 @@ from ..core import Ctx, HarnessError, Result
 from ..sched import catalogue as cat
 from ..sched.catalogue import A, AND, E, N, RefGraph, spec_from
 from ..sched.monitors import PoolInvariants
-from ..sched.mon_c28 import COUNTS, GroupTrigger, TriggerProfile
+from ..sched.mon_c28 import (
+    COUNTS, GroupTrigger, TriggerProfile, prep_window_members)
 from ..sched.run import explore_all, replay_violation, result_from
 
 LEVEL = 'model_checking'
@@ -42,6 +43,12 @@ ASSUME = [
     'judged for liveness if any member was active in another flow (the '
     'flows merge); a trigger executed while the scheduler is already '
     'shutting down is not judged',
+    'a trigger that would remove a member (one with in-group prerequisites) '
+    'whose job submission command is queued but not yet started is only '
+    'issued in the dedicated `chain2-prepwin` entry: there the abandoned job '
+    'is submitted nevertheless (known finding '
+    'removed-preparing-member-job-still-submitted) and that finding would '
+    'otherwise cut the search of every other entry short',
     'after the latest trigger naming it a member may be submitted at most '
     'once in the flows of that trigger (no retries configured); a job whose '
     'kill command is pending makes no further progress (late messages of '
@@ -60,6 +67,11 @@ def _specs(tier: str):
         ('start', [('P1', shapes['start'])], 1, 2, flows_q, {}, (), 1),
         ('and-bfail', [('P1', shapes['and'])], 1, 2, flows_q, {}, ('b',), 1),
     ]
+    # the only entry in which a trigger may remove a member whose job
+    # submission command is queued but not yet started (known finding)
+    prepwin = ('chain2-prepwin', [('P1', shapes['chain2'])], 1, 2, flows_q,
+               {'only_parts': ['1/a+1/b'], 'prepwin': True}, (), 1)
+    rows.append(prepwin)
     if tier == 'thorough':
         rows = [
             ('chain3', [('P1', shapes['chain3'])], 1, 3, flows_t, {}, (), 1),
@@ -79,6 +91,7 @@ def _specs(tier: str):
              {'pre_op': ('hold', {'tasks': ['1/a', '1/b', '1/c']})}, (), 2),
             ('chain3-holdpt', [('P1', shapes['chain3'])], 1, 2, flows_q,
              {'options': {'holdcp': '0'}}, (), 1),
+            prepwin,
             ('chain2-x2', [('P1', shapes['chain2'])], 1, 1, ['all', 'new'],
              {}, (), 2),
             # the whole group twice; events settle between commands
@@ -142,13 +155,22 @@ def make_factory(spec, tier=None):
         rest = [(n, kw) for n, kw in first if kw['flow'] == ['all']]
     budget = spec.get('budget', 1)
 
+    ref = RefGraph(spec['sections'], spec['icp'], spec['fcp'])
+
     def ops(w):
         k = w.op_count
         if pre is not None:
             if k == 0:
                 return [tuple(pre)] if w.iterations == 1 else []
             k -= 1
-        return first if k == 0 else rest
+        cand = first if k == 0 else rest
+        if not spec.get('prepwin'):
+            # known finding (C28-findings.json): confined to the dedicated
+            # `prepwin` entry so that it does not cut the other searches
+            cand = [(n, kw) for n, kw in cand
+                    if n != 'force_trigger_tasks'
+                    or not prep_window_members(w, ref, kw['tasks'])]
+        return cand
 
     def factory():
         outcomes = {t: ['failed'] for t in spec['fail_tasks']}
@@ -164,7 +186,7 @@ def run(ctx: Ctx) -> Result:
     COUNTS.collect(ctx.scratch)
     st = explore_all(
         ctx, [make_factory(s) for s in specs],
-        max_states=ctx.pick(4000, 40000), max_seconds=ctx.pick(110, 1700))
+        max_states=ctx.pick(4000, 40000), max_seconds=ctx.pick(300, 2400))
     counts = COUNTS.collect(ctx.scratch)
     if not st.error and not st.violations:
         need = ['member:inner:inactive', 'member:start:live',
